@@ -1,4 +1,5 @@
 import TantivyModel.Model.QuerySem
+import TantivyModel.Gen.JsonRange
 /-
 C03 — range queries over a numeric JSON path: the bound carries the type of the query term
 (i64 or u64) while the fast-field column of the path has the type the segment's values were
@@ -143,6 +144,51 @@ f64: not modelled).
 -- mirrors: columnar/src/columnar/writer/column_writers.rs::accept_value -/
 def colOf (suppliedAsU64 : Bool) (vals : List Int) : ColT :=
   if !suppliedAsU64 || vals.all (fun v => decide (v < I64MAX)) then .i64 else .u64
+
+/-! ### the table as the source has it now
+
+Three rows of the table are wrong in the pinned code (`lowerOk` / `upperOk`). The extractor reads,
+for each of them, whether the source has the pinned or the repaired form
+(`extract/items/boolweight.py` → `Gen.JsonRange`); `lowerTG` / `upperTG` follow those guards, the
+driver executes them. -/
+
+structure Guards where
+  /-- u64 lower bound above i64::MAX on an i64 column: `Excluded(i64::MAX.to_u64())` (no hits) -/
+  u64Lower : Bool
+  /-- f64 upper bound below the column minimum: `Excluded(T::min().to_u64())` (no hits) -/
+  f64Below : Bool
+  /-- fractional f64 bounds: lower rounded up (`ceil`), upper rounded down (`floor`) -/
+  f64Round : Bool
+deriving Repr, DecidableEq
+
+def Guards.pinned : Guards := ⟨false, false, false⟩
+def Guards.repaired : Guards := ⟨true, true, true⟩
+def Guards.extracted : Guards :=
+  ⟨Gen.JSON_U64_LOWER_ON_I64_NO_HITS == 1, Gen.JSON_F64_UPPER_BELOW_MIN_NO_HITS == 1,
+   Gen.JSON_F64_FRACTIONAL_ROUNDS_INWARD == 1⟩
+
+def lowerTG (g : Guards) (col : ColT) : BV → TB
+  | .i v => lowerT col (.i v)
+  | .u v => (match col with
+    | .u64 => .existing v
+    | .i64 =>
+      if I64MAX < (v : Int) then .new (.excl (if g.u64Lower then encI I64MAX else I64MAX.toNat))
+      else .existing (encI v))
+  | .f h =>
+    if col == .u64 && decide (h < 0) then .new .unb
+    else if h % 2 = 0 then .existing (enc col (h / 2))
+    else .new (.incl (enc col (if g.f64Round then (h + 1) / 2 else truncHalf h)))
+
+def upperTG (g : Guards) (col : ColT) : BV → TB
+  | .i v => upperT col (.i v)
+  | .u v => upperT col (.u v)
+  | .f h =>
+    if col == .u64 && decide (h < 0) then (if g.f64Below then .new (.excl 0) else .new .unb)
+    else if h % 2 = 0 then .existing (enc col (h / 2))
+    else .new (.incl (enc col (if g.f64Round then h / 2 else truncHalf h)))
+
+def implMatchG (g : Guards) (col : ColT) (lo hi : B) (v : Int) : Bool :=
+  inRangeN (applyT (lowerTG g col) lo) (applyT (upperTG g col) hi) (enc col v)
 
 /-! ### f64 column
 
